@@ -383,7 +383,18 @@ fn parse_at_rule(
             let output_index = ss.cur_output_utf8_len();
             ss.append_token(st, input, None);
             let x: &str = &x;
-            let contain_rule_list = matches!(x, "media" | "supports" | "document");
+            // at-rules which contain style rules (at-keywords are ASCII case-insensitive)
+            let contain_rule_list = matches!(
+                x.to_ascii_lowercase().as_str(),
+                "media"
+                    | "supports"
+                    | "document"
+                    | "-moz-document"
+                    | "layer"
+                    | "container"
+                    | "scope"
+                    | "starting-style"
+            );
             loop {
                 let r = input.try_parse::<_, _, ParseError<()>>(|input| {
                     let next = input.next()?;
